@@ -345,6 +345,7 @@ def run(ctx):
         runs.append(ctx.tlc("C15_wal", c, must_pass=True, timeout=3000, workers=8, heap="6g", label="stop"))
         c = core.cfg_variant(ctx, "C15_prune.cfg", "C15_prunecrash_run.cfg", {"MaxRecs": 5, "MaxCrash": 1})
         runs.append(ctx.tlc("C15_wal", c, must_pass=True, timeout=3000, workers=8, heap="6g", label="prune+crash"))
+        runs.append(ctx.tlc("C15_wal", "C15_echo.cfg", must_pass=True, timeout=3000, workers=8, heap="6g", label="echo"))
 
     # ---- 2. non-vacuity: every weakened spec must be refuted -------------------------------------
     nonvac = {}
